@@ -119,3 +119,12 @@ func callArgContains(n *Node, s string) bool {
 	}
 	return false
 }
+
+// PrecedeSince: every y is preceded by an x that happened after the last reset node (or after
+// entry). reset marks the start of a step inside a loop (e.g. the call that picks the item of
+// this iteration). Returns a counterexample path or nil.
+func (g *Graph) PrecedeSince(reset, x, y NodePred) []*Node {
+	src := []*Node{g.Entry}
+	src = append(src, g.Select(reset)...)
+	return g.PathAvoiding(src, y, x)
+}
